@@ -69,4 +69,9 @@ def main(argv: list[str]) -> int:
 
 
 if __name__ == '__main__':
-    sys.exit(main(sys.argv[1:]))
+    rc = main(sys.argv[1:])
+    sys.stdout.flush()
+    sys.stderr.flush()
+    # leave without interpreter finalisation: coroutines of killed operator incarnations that were never awaited
+    # would otherwise print tracebacks while the interpreter is torn down (noise only; everything is written by now)
+    os._exit(rc)
